@@ -1190,3 +1190,127 @@ def helper_or_caller(ctx: Ctx, modname: str, fname: str):
             raise
         cm, cf = callers[0].split(":")
         return ctx.summ.of_func(cm, cf), True
+
+
+# ---------------------------------------------------------------------- G.11: calls that cannot succeed
+def _local_names(fn: ast.AST) -> set:
+    out = set()
+    if isinstance(fn, (ast.FunctionDef, ast.AsyncFunctionDef, ast.Lambda)):
+        a = fn.args
+        for p in list(a.posonlyargs) + list(a.args) + list(a.kwonlyargs) + ([a.vararg] if a.vararg else []) + ([a.kwarg] if a.kwarg else []):
+            out.add(p.arg)
+    for x in ast.walk(fn):
+        if isinstance(x, ast.Name) and isinstance(x.ctx, (ast.Store, ast.Del)):
+            out.add(x.id)
+        elif isinstance(x, (ast.FunctionDef, ast.AsyncFunctionDef, ast.ClassDef)) and x is not fn:
+            out.add(x.name)
+        elif isinstance(x, (ast.Import, ast.ImportFrom)):
+            for al in x.names:
+                out.add((al.asname or al.name).split(".")[0])
+    return out
+
+
+def call_shape_problems(call: ast.Call, fdef: ast.FunctionDef, skip_first=False) -> List[str]:
+    """why `call` raises TypeError against the signature of `fdef` (empty: it binds)"""
+    if any(isinstance(a, ast.Starred) for a in call.args) or any(k.arg is None for k in call.keywords):
+        return []
+    a = fdef.args
+    pos = list(a.posonlyargs) + list(a.args)
+    if skip_first and pos:
+        pos = pos[1:]
+    n_def = len(a.defaults)
+    required_pos = [p.arg for p in pos[: len(pos) - n_def]] if n_def else [p.arg for p in pos]
+    kwonly_required = [p.arg for p, d in zip(a.kwonlyargs, a.kw_defaults) if d is None]
+    names = [p.arg for p in pos]
+    posonly = {p.arg for p in a.posonlyargs}
+    problems = []
+    if len(call.args) > len(pos) and a.vararg is None:
+        problems.append(f"{len(call.args)} positional arguments for {len(pos)} positional parameters")
+    bound = set(names[: len(call.args)])
+    for k in call.keywords:
+        if k.arg in bound:
+            problems.append(f"parameter `{k.arg}` given twice")
+        elif (k.arg in names and k.arg not in posonly) or k.arg in [p.arg for p in a.kwonlyargs]:
+            bound.add(k.arg)
+        elif a.kwarg is None:
+            problems.append(f"unexpected keyword `{k.arg}`")
+    for p in required_pos + kwonly_required:
+        if p not in bound:
+            problems.append(f"required parameter `{p}` is not given")
+    return problems
+
+
+def check_call_shapes(ctx: Ctx, files: List[str]):
+    """Every call of an in-package function binds against that function's signature, and every construction of a data model
+    gives the fields that have no default: a call that leaves a required parameter out (or names one that does not exist) raises
+    TypeError / ValidationError on every execution of that line -- whatever the inputs -- so the behaviour behind it is gone."""
+    ctx.rule("G.11", "calls of in-package functions bind against their signatures; model constructions give every required field", 1)
+    index, models = ctx.index, ctx.models
+    n = 0
+    for m in _scope_modules(ctx, files):
+        scopes = [(m.tree, set())]
+        for fn in ast.walk(m.tree):
+            if isinstance(fn, (ast.FunctionDef, ast.AsyncFunctionDef)):
+                scopes.append((fn, _local_names(fn)))
+        seen = set()
+        for scope, local in reversed(scopes):  # innermost functions first: a call is judged in its own scope
+            fname = getattr(scope, "name", "<module>")
+            for x in ast.walk(scope):
+                if not isinstance(x, ast.Call) or id(x) in seen:
+                    continue
+                seen.add(id(x))
+                root = x.func
+                while isinstance(root, ast.Attribute):
+                    root = root.value
+                if not isinstance(root, ast.Name) or root.id in local or root.id in ("self", "cls", "super"):
+                    continue
+                try:
+                    sy = index.resolve_expr(m, x.func)
+                except Exception:  # noqa: BLE001
+                    continue
+                if sy is None or ":" not in getattr(sy, "qual", ""):
+                    continue
+                modname, name = sy.qual.split(":")
+                if sy.kind == "func" and "." not in name:
+                    try:
+                        tm = index.module(modname)
+                    except Exception:  # noqa: BLE001
+                        continue
+                    defs = [d for d in tm.defs.get(name, []) if isinstance(d, ast.FunctionDef)]
+                    if len(defs) != 1 or defs[0].decorator_list:
+                        continue  # overloads / decorated functions: the visible signature is not (only) this one
+                    probs = call_shape_problems(x, defs[0])
+                    n += 1
+                    if probs:
+                        ctx.bad("G.11", m.relpath, fname, f"{ast.unparse(x)[:80]}",
+                                f"{fname}: the call `{ast.unparse(x)[:100]}` does not bind against `def {name}({ast.unparse(defs[0].args)[:100]})`: "
+                                f"{'; '.join(probs)} -- TypeError on every execution", x.lineno)
+                elif sy.kind == "class":
+                    ci = index.class_by_qual(sy.qual)
+                    if ci is None or not models.is_model(ci) or x.args or any(k.arg is None for k in x.keywords):
+                        continue
+                    if any(v.mode in ("before", "wrap") for v in models.validators(ci)) or "__init__" in ci.methods or any("__init__" in c.methods for c in ci.mro() if c is not ci):
+                        continue  # a before-mode hook may supply fields; a hand-written constructor has its own signature
+                    fm = models.field_map(ci)
+                    given = {k.arg for k in x.keywords}
+                    aliases = {}
+                    for f_ in fm.values():
+                        for ak in ("alias", "validation_alias"):
+                            av = f_.field_kwargs.get(ak)
+                            if isinstance(av, ast.Constant):
+                                aliases[f_.name] = av.value
+                    missing = [f_.name for f_ in fm.values() if f_.required and f_.default_factory is None and f_.name not in given and aliases.get(f_.name) not in given
+                               and not f_.optional is None]
+                    missing = [f_ for f_ in missing if fm[f_].shape[0] != "classvar"]
+                    n += 1
+                    if missing:
+                        ctx.bad("G.11", m.relpath, fname, f"{ast.unparse(x)[:80]}",
+                                f"{fname}: `{ast.unparse(x)[:100]}` builds a {ci.name} without its required field(s) {missing}: "
+                                f"ValidationError on every execution", x.lineno)
+    # the expected count of reports is zero: the binding test must fire on a known-bad call on every run
+    probe = ast.parse("def f(a, b, *, c, d=1): ...\nf(1, c=2)\nf(1, 2, c=3, e=4)\nf(1, 2, c=3)")
+    fdef_, bad1, bad2, good = probe.body[0], probe.body[1].value, probe.body[2].value, probe.body[3].value
+    if not call_shape_problems(bad1, fdef_) or not call_shape_problems(bad2, fdef_) or call_shape_problems(good, fdef_):
+        ctx.undec("G.11", "probe", "the binding test does not separate the probe calls: the rule cannot fire")
+        return
+    ctx.ok("G.11", f"{len(list(_scope_modules(ctx, files)))} modules", f"{n} resolved calls / model constructions bind (probe calls separated)")
